@@ -349,15 +349,19 @@ def run_case(case):
                     combos = [(None, False), ("lsq_linear", False), ("lsq", False)]
                 else:
                     combos = [(METHODS[int(rng.integers(len(METHODS)))], bool(rng.integers(2))) for _i in range(3)]
-                for method, allow in combos:
-                    if fam == "noisy" and rng.random() < 0.35:
+                ok_prev = False
+                for idx, (method, allow) in enumerate(combos):
+                    if idx > 0 and ok_prev and rng.random() < 0.5:
+                        # the SAME assembled system solved again with another back-end, without re-assembling it
+                        hist["same-system-solved-again"] = hist.get("same-system-solved-again", 0) + 1
+                    elif fam == "noisy" and rng.random() < 0.35:
                         # an angle limit that excludes a few interfaces: the sum row must count the REMAINING unknowns
                         solver.build_force_matrix(when=0, circle_fit_method=fit, angle_limit=float(rng.uniform(0.75, 0.95) * np.pi))
                         nex = len(fr.internal_big_edges) - len(solver.force_matrices[0].big_edges_to_use)
                         hist["with-excluded-interfaces"] = hist.get("with-excluded-interfaces", 0) + int(nex > 0)
                     else:
                         solver.build_force_matrix(when=0, circle_fit_method=fit)
-                    _solve(solver, 0, method, allow, mon, hist, sigs, fam, "static")
+                    ok_prev = _solve(solver, 0, method, allow, mon, hist, sigs, fam, "static")
         elif fam == "velocity":
             for _ in range(case["count"]):
                 base = scen.base_tissue(rng, "arc", ncells=int(rng.integers(8, 30)))
